@@ -264,3 +264,31 @@ def gnu_as(texts, syn):
         if os.path.exists(f):
             os.unlink(f)
     return out
+
+
+
+def line_features(hexbytes, intel_text):
+    """root-cause features of an instruction (prefix bytes present, non-general register classes named) used in
+    violation keys, so that a listed class about 16-bit addressing / segment overrides / operand-size prefixes /
+    special registers does not cover the ordinary 32-bit forms of the same operand shape"""
+    import re
+    b = bytes.fromhex(hexbytes) if isinstance(hexbytes, str) else bytes(hexbytes)
+    feats = set()
+    i = 0
+    while i < len(b) and b[i] in (0x66, 0x67, 0xf0, 0xf2, 0xf3, 0x26, 0x2e, 0x36, 0x3e, 0x64, 0x65):
+        feats.add({0x66: 'os16', 0x67: 'as16', 0xf0: 'lock', 0xf2: 'f2', 0xf3: 'f3'}.get(b[i], 'segpfx'))
+        i += 1
+    for n in re.findall(r'[a-z]+[0-9]*', (intel_text or '').lower()):
+        if re.fullmatch(r'cr[0-9]', n):
+            feats.add('cr')
+        elif re.fullmatch(r'dr[0-9]', n):
+            feats.add('dr')
+        elif n in ('es', 'cs', 'ss', 'ds', 'fs', 'gs') and (n + ':') not in (intel_text or '').lower():
+            feats.add('sreg')
+        elif re.fullmatch(r'xmm[0-9]', n):
+            feats.add('xmm')
+        elif re.fullmatch(r'mm[0-9]', n):
+            feats.add('mm')
+        elif n == 'st' or re.fullmatch(r'st[0-9]', n):
+            feats.add('st')
+    return ','.join(sorted(feats))
